@@ -35,16 +35,35 @@ impl<A: AcceptableMasterList, C: Clock, F: Filter, R: Rng, S: PtpInstanceStateMu
                     .with_ref(|s| s.parent_ds.parent_port_identity)
         {
             let clock_loop_detected = self.instance_state.with_mut(|state| {
-                let current_ds = &mut state.current_ds;
-                let parent_ds = &mut state.parent_ds;
-                let time_properties_ds = &mut state.time_properties_ds;
-                let path_trace_ds = &mut state.path_trace_ds;
+                let path_trace_tlv = if state.path_trace_ds.enable {
+                    message
+                        .suffix
+                        .tlv()
+                        .find(|tlv| tlv.tlv_type == TlvType::PathTrace)
+                } else {
+                    None
+                };
+
+                // A looping announce is discarded as a whole, so look for the loop
+                // before touching any data set.
+                if let Some(tlv) = &path_trace_tlv {
+                    let clock_identity = state.default_ds.clock_identity;
+                    if tlv.value.chunks_exact(8).any(|ci| ci == clock_identity.0) {
+                        log::warn!("Clock loop detected");
+                        return true;
+                    }
+                }
 
                 // An announce with stepsRemoved of 255 or more never qualifies
                 // (IEEE 1588-2019 9.3.2.5 d), so it must not update the data sets either.
                 if announce.steps_removed >= 255 {
                     return false;
                 }
+
+                let current_ds = &mut state.current_ds;
+                let parent_ds = &mut state.parent_ds;
+                let time_properties_ds = &mut state.time_properties_ds;
+                let path_trace_ds = &mut state.path_trace_ds;
 
                 current_ds.steps_removed = announce.steps_removed + 1;
 
@@ -56,29 +75,17 @@ impl<A: AcceptableMasterList, C: Clock, F: Filter, R: Rng, S: PtpInstanceStateMu
 
                 *time_properties_ds = announce.time_properties();
 
-                if path_trace_ds.enable {
-                    if let Some(tlv) = message
-                        .suffix
-                        .tlv()
-                        .find(|tlv| tlv.tlv_type == TlvType::PathTrace)
-                    {
-                        let clock_identity = state.default_ds.clock_identity;
-                        if tlv.value.chunks_exact(8).any(|ci| ci == clock_identity.0) {
-                            log::warn!("Clock loop detected");
-                            return true;
-                        }
-
-                        // The general socket accepts frames larger than an announce we can
-                        // send, so a received path can be longer than the list. A path
-                        // that long cannot be extended and forwarded anyway; keep what fits.
-                        let capacity = path_trace_ds.list.capacity();
-                        path_trace_ds.list = tlv
-                            .value
-                            .chunks_exact(8)
-                            .take(capacity)
-                            .map(|ci| ClockIdentity(<[u8; 8]>::try_from(ci).unwrap()))
-                            .collect();
-                    }
+                if let Some(tlv) = path_trace_tlv {
+                    // The general socket accepts frames larger than an announce we can
+                    // send, so a received path can be longer than the list. A path
+                    // that long cannot be extended and forwarded anyway; keep what fits.
+                    let capacity = path_trace_ds.list.capacity();
+                    path_trace_ds.list = tlv
+                        .value
+                        .chunks_exact(8)
+                        .take(capacity)
+                        .map(|ci| ClockIdentity(<[u8; 8]>::try_from(ci).unwrap()))
+                        .collect();
                 }
 
                 false
